@@ -1,10 +1,10 @@
 CHECK = dict(
     level='exploration',
     parts=[dict(name='c12', src=['harness/c12_pack.c'], lib=['pack.c'], workers=16,
-                deadline=dict(quick=240, thorough=3600)),
+                deadline=dict(quick=300, thorough=3600)),
            dict(name='c12asan', src=['harness/c12_pack.c'], lib=['pack.c'], workers=16,
                 cflags=['-fsanitize=address', '-fsanitize-recover=address', '-fno-omit-frame-pointer', '-O1', '-DC12_ASAN'],
-                deadline=dict(quick=240, thorough=900))],
+                deadline=dict(quick=300, thorough=1800))],
     rule='pack.c is linked as an object of its own (its statics, if it ever has any, are reset before every case and saved with '
          'every depth-first frame); the harness includes only <librfn/pack.h> and calls each operation by name (a function-like '
          'macro or static inline in pack.h is simply called). One engine executes every call on the real code and on a model '
